@@ -25,7 +25,7 @@ func goLib(id string, shards int, o drv.ChildOpts, sp drv.Spec) {
 }
 
 func init() {
-	goLib("C06", 16, drv.ChildOpts{WallSec: 3000}, drv.Spec{
+	goLib("C06", 16, drv.ChildOpts{WallSec: 3000, CrashIsViol: true, CrashSigPfx: "crash:"}, drv.Spec{
 		Level: "exploration",
 		Rule: "cases = (op, X, Y) with bounds drawn from bit-pattern-aware values (2^k, 2^k±1, around 2^32/2^64, bit-fills with a hole, small ints), shapes finite/half-infinite/infinite/empty/point, narrow windows at any magnitude for full enumeration; " +
 			"distinct = (op, sign class of X, sign class of Y, shape pair, magnitude bucket[, fail]) tuples that were actually evaluated against the math/big oracle",
